@@ -20,6 +20,14 @@ Require Import V.Proofs.C06OracleProofs.
 Require Import V.Oracle.C06Oracle.
 Require Import V.Oracle.C07Oracle.
 Require Import V.Proofs.C07OracleProofs.
+Require Import V.Model.RingAgent.
+Require Import V.Proofs.RingLog.
+Require Import V.Proofs.RingQuiet.
+Require Import V.Proofs.RingAgentInv.
+Require Import V.Proofs.RingAgentRun.
+Require Import V.Proofs.RingStuck.
+Require Import V.Proofs.RingStuckForever.
+Require Import V.Proofs.RingSweepLog.
 Open Scope Z_scope.
 
 (* every configuration reachable under any schedule (positions below 2^62) satisfies the invariant *)
@@ -150,3 +158,145 @@ Example C07_example_unblock_true :
 Proof. split; [| repeat split; vm_compute; try reflexivity; right; reflexivity].
   assert (E : replay_ok 8 Debug ex_d0 [1; 1; 1; 2; 2; 2; 2; 2; 2]%nat = Some ex_d) by (vm_compute; reflexivity).
   exact (replay_reach _ _ _ _ _ _ E (reach_refl _ _ _)). Qed.
+
+(* ---------------------------------------------------------------------------------------------------------------
+   unblock() interleaved with surviving producers (Model/RingAgent.v).  Thread 0 is the consumer-side agent: a
+   program of reads and unblock() calls, unblock as a pc-machine over the accesses the hook reports (head, tail,
+   length word at the consumer index, forward scan, scan_back_to_confirm_still_zeroed, store of the padding header).
+   `dead` is any set of producers that take no step any more; every other producer may be anywhere inside write
+   while unblock scans, between its scan and its store, and afterwards.  XInv = the C06 invariant for the embedded
+   configuration + what unblock has established at its pc, over the present state only (Proofs/RingAgentInv.v). *)
+
+(* the threads may be started on any ring a sequential run left behind, whatever the agent's program *)
+Theorem C07_conc_initial : forall dead R ops progs,
+  wf R -> Forall (Forall wreq_ok) progs -> r_tail R + 2 * r_cap R <= two62 ->
+  XInv (r_hc R) dead (xstart R ops progs).
+Proof. exact xinv_start. Qed.
+Print Assumptions C07_conc_initial.
+
+(* every step of every thread - survivors inside write, the agent's reads, every access of unblock including a failing
+   scan_back_to_confirm_still_zeroed - preserves XInv.  The store of the padding header does so whenever the slots the
+   padding covers belong to dead producers and are uncommitted (`put_safe`, what the algorithm assumes of producers
+   blocked for longer than its timeout): then the memory after the store (`render` equal) is the memory of a
+   configuration that satisfies XInv again in which the swept claims - all of dead producers, never committed - are one
+   padding slot at the consumer position and their owners are out of the game. *)
+Theorem C07_conc_step : forall lo dead m x tid x' e,
+  XInv lo dead x -> xstep m x tid = Some (x', e) -> (forall i, tid = S i -> ~ dead i) -> in_xwindow x' ->
+  (forall h L, a_mode (ag_agent x) = AUnblocking (UPut h L) -> tid = O -> put_safe dead (ag_ring x) h L) ->
+  XInv lo dead x' \/
+  (exists h L swept suffix pad, a_mode (ag_agent x) = AUnblocking (UPut h L) /\ tid = O /\
+     r_slots (ag_ring x) = swept ++ suffix /\ swept <> [] /\ Forall (fun s => s_len s <= 0 /\ owner_dead dead s) swept /\
+     s_type pad = PAD /\ s_pos pad = r_head (ag_ring x) /\ s_span pad = span_sum swept /\
+     ag_ring x' = set_slots (ag_ring x) (put_hdr (r_slots (ag_ring x)) h L PAD) /\ ag_prods x' = ag_prods x /\
+     let xd := mkACfg (set_slots (ag_ring x) (pad :: suffix)) (ag_agent x') (retire swept (ag_prods x)) in
+     XInv lo dead xd /\ render (ag_ring xd) = render (ag_ring x')).
+Proof. exact xstep_inv. Qed.
+Print Assumptions C07_conc_step.
+
+(* what one access of unblock does: it goes on with a justified pc on the same ring, or returns false on the same
+   ring, or it is the store *)
+Theorem C07_conc_unblock_access : forall lo dead R prods u R' nxt e,
+  Inv lo (qcfg R prods) -> unb_ok dead R u -> ustep R u = (R', nxt, e) ->
+  match nxt with
+  | inl u' => R' = R /\ unb_ok dead R u'
+  | inr false => R' = R
+  | inr true => exists h L, u = UPut h L /\ R' = set_slots R (put_hdr (r_slots R) h L PAD)
+  end.
+Proof. intros lo dead R prods u R' nxt e HI. exact (ustep_ok lo dead R prods HI u R' nxt e). Qed.
+Print Assumptions C07_conc_unblock_access.
+
+(* the store itself: under put_safe the padding has the properties C07_unblock lists for the sequential unblock *)
+Theorem C07_conc_put : forall lo dead R prods h L,
+  Inv lo (qcfg R prods) -> unb_ok dead R (UPut h L) -> put_safe dead R h L ->
+  exists s1 rest, pad_facts R s1 rest L /\ put_hdr (r_slots R) h L PAD = set_hdr L PAD s1 :: rest.
+Proof. exact put_facts. Qed.
+Print Assumptions C07_conc_put.
+
+(* C07_stuck as an iff: with an uncommitted claim at the consumer position unblock answers false exactly when the header
+   of that claim was never written and every length word the forward scan looks at - consumer index + 8, then + 16, ...
+   below the scan limit (producer index if it is ahead of the consumer index, else the capacity) - is zero *)
+Theorem C07_stuck_iff : forall lo cfg s1 rest, Inv lo cfg -> cons_idle (g_cons cfg) ->
+  let R := g_ring cfg in
+  r_slots R = s1 :: rest -> s_len s1 <= 0 ->
+  (snd (unblock R) = false <->
+   s_len s1 = 0 /\ forall k, visited (r_head R mod r_cap R + 8) (scan_limit R) k -> word_at (render R) k = 0).
+Proof. exact stuck_iff. Qed.
+Print Assumptions C07_stuck_iff.
+
+(* ... and "for ever": when every claim from the consumer position to the end of the data area was never written and
+   belongs to dead producers (e.g. a producer dead right after the compare-and-set of a claim that wrapped), that stays so
+   under every step of every other thread, the agent's reads hand out nothing and its unblock() calls answer false *)
+Theorem C07_stuck_forever : forall lo dead m x tid x' e,
+  XInv lo dead x -> stuck_ring dead (ag_ring x) -> calm (ag_ring x) (a_mode (ag_agent x)) ->
+  xstep m x tid = Some (x', e) -> (forall i, tid = S i -> ~ dead i) -> in_xwindow x' ->
+  XInv lo dead x' /\ stuck_ring dead (ag_ring x') /\ calm (ag_ring x') (a_mode (ag_agent x')) /\
+  r_head (ag_ring x') = r_head (ag_ring x) /\
+  exists extra, a_res (ag_agent x') = a_res (ag_agent x) ++ extra /\ Forall quiet_res extra.
+Proof. exact stuck_step. Qed.
+Print Assumptions C07_stuck_forever.
+
+(* C07_after for the ghost log of C06: the configuration that describes the memory after a successful unblock satisfies
+   the log invariant again; the writes in flight of the retired (dead) producers left the log with their slots, everything
+   else - what was delivered, all other pending records, their order - is the same *)
+Theorem C07_after_log : forall lo cfg, Inv lo cfg -> LogInv cfg -> cons_idle (g_cons cfg) ->
+  let R := g_ring cfg in
+  snd (unblock R) = true ->
+  exists swept suffix pad,
+    r_slots R = swept ++ suffix /\ swept <> [] /\ Forall (fun s => s_len s <= 0) swept /\
+    s_type pad = PAD /\ s_pos pad = r_head R /\ s_span pad = span_sum swept /\
+    let cfg' := mkCfg (set_slots R (pad :: suffix)) (g_cons cfg) (retire swept (g_prods cfg)) in
+    Inv lo cfg' /\ LogInv cfg' /\ render (g_ring cfg') = render (fst (unblock R)) /\
+    log cfg' = map tag2 (delivered (g_cons cfg)) ++ tags_of suffix /\
+    log cfg = map tag2 (delivered (g_cons cfg)) ++ tags_of swept ++ tags_of suffix.
+Proof. exact after_unblock_log. Qed.
+Print Assumptions C07_after_log.
+
+(* ---- non-vacuity: a survivor is inside write while unblock is between its scan and its store ---- *)
+Definition exu_x0 : aconfig := xstart (init 64 8 8 0) [CoUnblock] [[(1, payload 0 8)]; [(2, payload 1 0)]].
+(* producer 1 claims 16 bytes at position 8 and dies right after its compare-and-set *)
+Definition exu_x1 : aconfig := match xreplay [] Debug exu_x0 [1; 1; 1]%nat with Some x => x | None => exu_x0 end.
+(* producer 2 claims behind it and writes its header; unblock reads head, tail, the zero length word at 8, the zero word
+   at 16, the header of producer 2 at 24; producer 2 copies its payload; unblock confirms 16 and 8 *)
+Definition exu_x2 : aconfig :=
+  match xreplay [0%nat] Debug exu_x1 [2; 2; 2; 2; 0; 0; 0; 0; 2; 0; 0; 0]%nat with Some x => x | None => exu_x1 end.
+
+Example C07_conc_example :
+  XInv 8 (fun i => In i [0%nat]) exu_x2 /\
+  a_mode (ag_agent exu_x2) = AUnblocking (UPut 8 16) /\ map p_pc (ag_prods exu_x2) = [PHdr 8; PCommit 24] /\
+  put_safe (fun i => In i [0%nat]) (ag_ring exu_x2) 8 16 /\
+  (* the store: the padding covers exactly the dead claim; the survivor's record stays in front of the consumer *)
+  exists x3 e, xstep Debug exu_x2 0 = Some (x3, e) /\
+    r_slots (ag_ring x3) = [mkSlot 8 16 16 PAD [] 1 0; mkSlot 24 8 (-8) 2 [] 2 0] /\ a_res (ag_agent x3) = [AUnb true].
+Proof.
+  assert (H0 : XInv 8 (fun i => In i []) exu_x0).
+  { change (XInv (r_hc (init 64 8 8 0)) (fun i => In i []) (xstart (init 64 8 8 0) [CoUnblock] [[(1, payload 0 8)]; [(2, payload 1 0)]])).
+    apply xinv_start.
+    - apply wf_init; [exists 6; split; [lia | reflexivity] | lia | reflexivity].
+    - repeat (constructor; try (right; reflexivity)).
+    - cbn. unfold two62. lia. }
+  assert (H1 : XInv 8 (fun i => In i []) exu_x1).
+  { apply (xreplay_inv 8 [] Debug [1; 1; 1]%nat exu_x0); [exact H0 | vm_compute; reflexivity]. }
+  assert (H1' : XInv 8 (fun i => In i [0%nat]) exu_x1) by (apply (xinv_dead_change 8 _ _ _ H1); vm_compute; exact I).
+  assert (H2 : XInv 8 (fun i => In i [0%nat]) exu_x2).
+  { apply (xreplay_inv 8 [0%nat] Debug [2; 2; 2; 2; 0; 0; 0; 0; 2; 0; 0; 0]%nat exu_x1); [exact H1' | vm_compute; reflexivity]. }
+  split; [exact H2 |]. split; [vm_compute; reflexivity |]. split; [vm_compute; reflexivity |]. split.
+  - intros s Hs Hp. vm_compute in Hs. destruct Hs as [<- | [<- | []]].
+    + split; [exists 0%nat; split; [reflexivity | left; reflexivity] | cbn; lia].
+    + exfalso. revert Hp. vm_compute. discriminate.
+  - eexists. eexists. split; [vm_compute; reflexivity |]. split; vm_compute; reflexivity.
+Qed.
+
+(* C07_inflight_limits - what the theorems above do not cover, and cannot: the owner of a swept claim is alive.  Producer 1
+   dies after its compare-and-set, producer 2 claims behind it, producer 3 commits behind that; unblock scans forward over both
+   blank claims to producer 3's header and confirms backwards; *then* producer 2 writes its header, its payload and commits
+   (write returns Ok); unblock stores a padding of 24 bytes that covers producer 2's committed record: the next read delivers
+   only producer 3's command.  The implementation does exactly the same (corpus/C07/inflight-limit.json). *)
+Definition exl_x0 : aconfig := xstart (init 64 8 8 0) [CoUnblock] [[(1, payload 0 0)]; [(2, payload 1 8)]; [(3, payload 2 0)]].
+Fixpoint xgo (x : aconfig) (s : list nat) : aconfig :=
+  match s with [] => x | t :: r => match xstep Debug x t with Some (x', _) => xgo x' r | None => x end end.
+Definition exl_x : aconfig := xgo exl_x0 ([1; 1; 1] ++ [2; 2; 2] ++ repeat 3 6 ++ repeat 0 9 ++ [2; 2; 2] ++ [0])%nat.
+Example C07_inflight_limits :
+  a_res (ag_agent exl_x) = [AUnb true] /\ map p_res (ag_prods exl_x) = [[]; [Ok 0]; [Ok 0]] /\
+  map (fun s => (s_pos s, s_len s, s_type s)) (r_slots (ag_ring exl_x)) = [(8, 24, PAD); (16, 16, 2); (32, 8, 3)] /\
+  snd (read Debug (ag_ring exl_x) 100) = Ok (1, [(3, [])]).
+Proof. repeat split; vm_compute; reflexivity. Qed.
